@@ -33,8 +33,20 @@ NEAR = [{"i": 0}, {"i": 1}, {"f": "1.0"}, {"b": True}, {"f": "0.0"}, {"b": False
         {"t": [{"i": 1}, {"i": 2}]}, {"l": [{"i": 1}, {"i": 2}]}, {"i": 3}, {"i": 4}, {"i": 5}]
 
 
+MIXED_KEYS = [{"i": 1}, {"s": "k"}, {"y": "k"}, {"t": [{"i": 1}, {"s": "a"}]}, {"n": 0}, {"i": 7}, {"s": "zz"}]
+
+
 def gen_value(rng, depth=0):
     r = rng.random()
+    if depth == 0 and r < 0.12:
+        # dict / set with keys of mixed kinds (int, str, bytes, tuple, None): the hasher cannot sort them and falls
+        # back to ordering by the joblib digest of each key, which must not depend on PYTHONHASHSEED
+        keys = rng.sample(MIXED_KEYS, rng.randint(2, 5))
+        if not any("s" in k or "y" in k for k in keys):
+            keys.append({"s": "k"})
+        if rng.random() < 0.7:
+            return {"d": [[k, rng.choice(NEAR[:8])] for k in keys]}
+        return {"S": keys}
     if r < 0.7 or depth > 1:
         return rng.choice(NEAR)
     if r < 0.85:
@@ -267,6 +279,42 @@ def gen_sig_scenario(rng, params, sid, quick=True):
         elif r < 0.44:
             events.append(["wrap", 0])
     sc["events"] = events
+    if multi:
+        sc["hashseeds"] = rng.sample(["0", "1", "2", "random", "4242"], 5)
+    return sc
+
+
+def all_params(sc):
+    return [sc["params"]] + [v["params"] for v in sc["versions"].values() if "params" in v]
+
+
+def gen_pair_scenario(rng, sid, how):
+    """two function objects that share ONE code object, cached in one process, calls interleaved:
+    how='factory': closures of one factory (same text, same __code__, different __defaults__/__kwdefaults__);
+    how='wraps'  : two functions behind one functools.wraps decorator with different underlying signatures."""
+    sigs = [s_ for s_ in enum_signatures(3) if not shape_keys(s_) or rng.random() < 0.15]
+    if how == "factory":
+        base = rng.choice([s_ for s_ in sigs if any(p[2] is not None for p in s_)])
+        pv = {}
+        for k in (1, 2):
+            pv[k] = [[n, kd, ({"i": 10 * k + i} if d is not None else None)] for i, (n, kd, d) in enumerate(base)]
+    else:
+        pv = {1: rng.choice(sigs), 2: rng.choice(sigs)}
+    V = {str(k): {"tag": "v0", "path": "verifmod.py", "pad": 0, "kind": how, "text": 0, "params": pv[k]} for k in (1, 2)}
+    sc = {"id": sid, "type": "sig", "params": pv[1], "ignore": [], "compress": False, "versions": V}
+    events = [["define", 1], ["wrap", 1], ["define", 2], ["wrap", 2]]
+    bindings = {1: [], 2: []}
+    for _ in range(rng.randint(4, 12)):
+        k = rng.choice([1, 2])
+        if bindings[k] and rng.random() < 0.5:
+            cs = equivalent_form(rng, pv[k], rng.choice(bindings[k]), [])
+        elif how == "factory" and bindings[3 - k] and rng.random() < 0.4:
+            cs = equivalent_form(rng, pv[k], rng.choice(bindings[3 - k]), [])   # the sibling's binding, spelled for k
+        else:
+            cs, b = gen_call(rng, pv[k])
+            bindings[k].append(b)
+        events += [["check", k, cs, True], ["call", k, cs, True]]
+    sc["events"] = events
     return sc
 
 
@@ -333,7 +381,52 @@ def fixed_scenarios(prop):
         out.append({"id": "fixed-partials", "type": "partial",
                     "params": [["a", "pk", None], ["b", "pk", None], ["c", "pk", I(12)], ["d", "ko", I(13)]],
                     "ignore": [], "compress": False, "versions": V, "mode": "own", "events": ev})
+    if prop in ("C02", "C06"):
+        # (a) a dict / set argument with keys of mixed kinds, repeated (rebuilt in other orders) in fresh processes
+        #     that run under different PYTHONHASHSEED values
+        mixed = {"d": [[{"i": 1}, I(1)], [{"s": "k"}, I(2)], [{"y": "k"}, I(3)], [{"t": [I(1), {"s": "a"}]}, I(4)],
+                       [{"n": 0}, I(5)]]}
+        mset = {"S": [{"i": 1}, {"s": "k"}, {"y": "k"}, {"n": 0}]}
+        rev = {"d": list(reversed(mixed["d"]))}
+        rset = {"S": list(reversed(mset["S"]))}
+        ev = [["define", 0], ["wrap", 0]]
+        for n, (a, b) in enumerate([(mixed, mset), (rev, rset), (mixed, rset), (rev, mset), (mixed, mset)]):
+            cs = {"pos": [a], "kw": [["b", b]]}
+            ev += [["check", 0, cs, True], ["call", 0, cs, True]]
+            if n < 4:
+                ev += [["newprocess"], ["define", 0], ["wrap", 0]]
+        out.append({"id": "fixed-mixed-keys-hashseeds", "type": "sig", "hashseeds": ["0", "1", "2", "random", "77"],
+                    "params": [["a", "pk", None], ["b", "pk", I(0)]], "ignore": [], "compress": False,
+                    "versions": {"0": {"tag": "v0", "path": "verifmod.py", "pad": 0, "kind": "def"}}, "events": ev})
+        # (b) closures of one factory: def make(k): def f(x, factor=k)
+        pv = {k: [["x", "pk", None], ["factor", "pk", I(k)]] for k in (3, 4)}
+        V = {str(i + 1): {"tag": "v0", "path": "verifmod.py", "pad": 0, "kind": "factory", "text": 0, "params": pv[k]}
+             for i, k in enumerate((3, 4))}
+        ev = [["define", 1], ["wrap", 1], ["define", 2], ["wrap", 2]]
+        for k, pos, kw in [(1, [5], []), (2, [5], []), (2, [5, 4], []), (2, [], [("x", 5), ("factor", 4)]),
+                           (1, [5, 3], []), (1, [], [("x", 5), ("factor", 3)]), (2, [5, 3], []), (1, [5, 4], [])]:
+            ev += [_call(k, pos, kw, kind="check"), _call(k, pos, kw)]
+        out.append({"id": "fixed-factory-closures", "type": "sig", "params": pv[3], "ignore": [], "compress": False,
+                    "versions": V, "events": ev})
+        #     two functions behind one functools.wraps decorator, different underlying signatures
+        pw = {1: [["a", "pk", None], ["b", "pk", I(1)]], 2: [["x", "pk", None], ["y", "ko", I(2)], ["z", "ko", I(3)]]}
+        V = {str(k): {"tag": "v0", "path": "verifmod.py", "pad": 0, "kind": "wraps", "text": 0, "params": pw[k]}
+             for k in (1, 2)}
+        ev = [["define", 1], ["wrap", 1], ["define", 2], ["wrap", 2]]
+        for k, pos, kw in [(1, [5], []), (2, [5], []), (2, [5], [("z", 3)]), (1, [5, 1], []), (2, [], [("x", 5), ("y", 2)]),
+                           (1, [], [("a", 5)]), (2, [6], [("y", 0)])]:
+            ev += [_call(k, pos, kw, kind="check"), _call(k, pos, kw)]
+        out.append({"id": "fixed-wraps-pair", "type": "sig", "params": pw[1], "ignore": [], "compress": False,
+                    "versions": V, "events": ev})
     if prop == "C12":
+        # (c) source-less functions (exec'd text): an edit that changes only a literal, in process and across
+        #     fresh processes
+        V = {str(k): {"tag": "v%d" % k, "path": "nosrc.py", "pad": 0, "kind": "sourceless", "text": k} for k in (1, 2)}
+        ev = [["define", 1], ["wrap", 1], _c(1), _c(1), ["define", 2], ["wrap", 2], _c(2), _c(2),
+              ["newprocess"], ["define", 2], ["wrap", 2], _c(2), ["newprocess"], ["define", 1], ["wrap", 1], _c(1),
+              _c(1, 1), ["newprocess"], ["define", 2], ["wrap", 2], _c(2, 1), _c(2)]
+        out.append({"id": "fixed-sourceless-literal-edit", "type": "c12", "params": [["x", "pk", None]], "ignore": [],
+                    "compress": False, "versions": V, "mode": "own", "events": ev})
         # two different lambdas in one process: l1(a); l1(a); l2(a); l1(a)  (own files and one file)
         for same in (False, True):
             V = {str(k): {"tag": "v%d" % k, "path": "verifmod.py" if same else "mod_v%d.py" % k, "pad": 0,
@@ -350,7 +443,9 @@ def fixed_scenarios(prop):
 def gen_c12_scenario(rng, sid):
     nver = rng.choice([2, 2, 3])
     mode = rng.choice(["own", "own", "same", "same", "mixed"])
-    kind = rng.choice(["def", "def", "def", "nested", "lambda", "lambda", "main"])
+    kind = rng.choice(["def", "def", "def", "nested", "lambda", "lambda", "main", "sourceless", "sourceless"])
+    if kind == "sourceless":
+        mode = "own"       # no file at all: the "source text" is str(hash(code object))
     if kind == "main":
         mode = "same"      # a __main__ function is identified by its file: other files are other functions
     ntext = rng.choice([nver, nver, max(1, nver - 1)])   # versions may share their source text
@@ -448,14 +543,15 @@ def run_scenario(sc, timeout=300):
                 cur.append([i, ev])
         segs.append(cur)
         results = {}
-        for seg in segs:
+        seeds = sc.get("hashseeds") or ["0"]
+        for nseg, seg in enumerate(segs):
             if not seg:
                 continue
             job = {"cache": cache, "moddir": moddir, "refs": os.path.join(tmp, "refs.pkl"),
                    "scenario": {k: sc[k] for k in ("versions", "params", "ignore", "compress")}, "events": seg}
             p = subprocess.run([common.PY, os.path.join(common.ROOT, "harness", "impl", "c02_impl.py")],
                                input=json.dumps(job), stdout=subprocess.PIPE, stderr=subprocess.PIPE, text=True,
-                               env=common.impl_env(), timeout=timeout)
+                               env=common.impl_env(hashseed=seeds[nseg % len(seeds)]), timeout=timeout)
             if p.returncode != 0 or not p.stdout.strip():
                 return {"harness_error": "segment failed rc=%s: %s" % (p.returncode, p.stderr[-1500:])}
             for r in json.loads(p.stdout.strip().splitlines()[-1]):
@@ -474,6 +570,8 @@ def run_scenarios(scs, workers=None):
 # ------------------------------------------------------------------------------ oracle
 def vpath(k, v):
     """the file a version's source text is read from (a partial has none: its text is its repr)"""
+    if v.get("kind") == "sourceless":
+        return "nosrc-text-%s" % v.get("text", 0)      # get_func_code falls back to the code object itself
     return v["path"] if v.get("kind") != "partial" else "partial-%s" % k
 
 
@@ -528,7 +626,9 @@ def judge(sc, res):
     if "harness_error" in res:
         return [{"prop": "*", "kind": "harness", "event": -1, "what": res["harness_error"], "key": None}]
     evs = res["events"]
-    shapes = shape_keys(sc["params"])
+    shapes = set()
+    for ps in all_params(sc):
+        shapes |= shape_keys(ps)
     V = sc["versions"]
     sc["_raises"] = {i: True for i, r in enumerate(evs) if r.get("args_id", 1) is None}
     adm, adm_at, adm_clause = monitor(sc, classify=True)
@@ -902,6 +1002,7 @@ def gen_for(ctx, prop, n=None):
     n = n or (230 if quick else 3000)
     scs = [w for w, p, _, _ in WITNESSES if w["type"] == "sig"] + fixed_scenarios(prop)
     scs += [gen_partial_scenario(rng, "p-%d" % i) for i in range(40 if quick else 400)]
+    scs += [gen_pair_scenario(rng, "pair-%d" % i, "factory" if i % 2 else "wraps") for i in range(40 if quick else 400)]
     # every signature of <= 3 parameters at least once, then a random sample of the larger ones
     scs += [gen_sig_scenario(rng, s, "s3-%d" % i) for i, s in enumerate(sigs3)]
     plain = [s for s in sigs if not shape_keys(s)]
@@ -942,6 +1043,9 @@ def run_property(ctx, prop):
                 unknown.append((d, sc))
             else:
                 known.setdefault(d["key"], []).append((d, sc))
+    prio = {"wrong-value": 0, "wrong-value-get": 0, "wrong-version": 0, "recomputed": 1, "unchanged-recomputed": 1,
+            "rejected": 1, "check-mismatch": 1, "key-collision": 2, "key-split": 2}
+    unknown.sort(key=lambda x: prio.get(x[0]["kind"], 3))
     for d, sc in unknown[:3]:
         ctx.violation("%s: %s" % (d["kind"], d["what"]), {"kind": "oracle", "scenario": strip(sc), "event": d["event"]},
                       True)
@@ -1005,7 +1109,7 @@ def run_property(ctx, prop):
             dist[ev[0]] = dist.get(ev[0], 0) + 1
     sig_shapes = {"plain": 0, "known-shape": 0}
     for sc in scs:
-        sig_shapes["known-shape" if shape_keys(sc["params"]) else "plain"] += 1
+        sig_shapes["known-shape" if any(shape_keys(ps) for ps in all_params(sc)) else "plain"] += 1
     return {
         "evaluations": len(scs),
         "distinct_nontrivial": len(nontrivial),
